@@ -91,6 +91,26 @@ Theorem C19_list_rest_refuted :
 Proof. exact list_rest_refuted. Qed.
 Print Assumptions C19_list_rest_refuted.
 
+(* the generated parameter reference (.rst): every row of a consistently declared parameter shows the type, the
+   preferred unit, the default and the Min / Max the simulator enforces (names: C19_names applies to the rows too) *)
+Theorem C19_rst_fields :
+  forall t sch, rst_ok t sch = true ->
+  forall s p, In s sch -> find_name (s_name s) t = Some p -> consistent t p = true -> rst_match p s = true.
+Proof. exact rst_sound. Qed.
+Print Assumptions C19_rst_fields.
+
+Theorem C19_rst_meaning :
+  forall p s, rst_match p s = true ->
+  s_type s = p_jtype p /\ s_units s = p_pref p /\
+  (p_kind p = KFloat -> exists a b, s_min s = Some a /\ a == p_min p /\ s_max s = Some b /\ b == p_max p).
+Proof. exact rst_match_meaning. Qed.
+Print Assumptions C19_rst_meaning.
+
+Theorem C19_rst_enforced_float :
+  forall p s, p_kind p = KFloat -> rst_match p s = true -> forall v, schema_allows s v = in_domain p v.
+Proof. exact rst_enforced_float. Qed.
+Print Assumptions C19_rst_enforced_float.
+
 (* committed files = generated schema (entry by entry: name and content hash; both inclusions) *)
 Theorem C19_committed :
   forall a b, same_entries a b = true ->
@@ -109,6 +129,14 @@ Theorem C19_result_fields :
   forall client sch, result_fields_ok client sch = true -> forall c n d, In (c, n, d) sch -> In (c, n) client.
 Proof. exact result_fields_sound. Qed.
 Print Assumptions C19_result_fields.
+
+(* ... and on a real report: every schema field whose label the report prints is extracted with a value (the check
+   evaluates report_ok on the labels printed by / values extracted from reports of real runs) *)
+Theorem C19_report_fields :
+  forall sch printed extracted, report_ok sch printed extracted = true ->
+  forall c n d, In (c, n, d) sch -> In (c, n) printed -> In (c, n) extracted.
+Proof. exact report_sound. Qed.
+Print Assumptions C19_report_fields.
 
 (* the pinned tree refutes the names clause: 30 accepted input names are not published; none is extra *)
 Theorem C19_names_refuted :
@@ -148,6 +176,9 @@ Example C19_example :
   same_entries [ex_depth_entry] [ex_depth_entry] = true /\
   result_fields_ok [("SUMMARY OF RESULTS", "LCOE")]%string [("SUMMARY OF RESULTS", "LCOE", "d")]%string = true /\
   names_ok [ex_depth; ex_enduse] [ex_depth_entry] = false /\
+  report_ok [("S", "LCOE", "d"); ("S", "LCOH", "d")]%string [("S", "LCOE")]%string [("S", "LCOE")]%string = true /\
+  report_ok [("S", "LCOE", "d")]%string [("S", "LCOE")]%string [] = false /\
+  rst_match ex_depth ex_depth_entry = true /\ rst_ok [ex_depth; ex_enduse] [ex_depth_entry] = true /\
   fields_match w_gradients w_gradients_entry = true /\ read_list w_gradients (500#1) [0] = LStore [500#1; 0] /\
   read_list w_gradients (5001#10) [0] = LKeep.
 Proof. repeat split; vm_compute; reflexivity. Qed.
